@@ -117,6 +117,8 @@ func propC20(c *Ctx, r *Report) {
 	r.NotDec = "that exactly the canonical language is accepted (jsonlen.Compact and encoding/json are trusted) and decode(encode(x)) = x"
 	r.Trusted = []string{"encoding/json", "factom/jsonlen", "go/ssa", "go/ast"}
 	tick, max := c.tickers()
+	ruleCompactOrigin(c, r, "C20/compact-origin")
+	ruleEncoderGate(c, r, "C20/encoder-gate")
 
 	// ticker table
 	r.rule("C20/ticker-table", 1, "validPTickerStrings[i] is the name of enum constant i+1")
